@@ -32,7 +32,7 @@ LEAN = {"module": "Pygom.Props.C17",
                      "Pygom.C17.quantileLinear_le_maxL", "Pygom.C17.par_order_binds_by_name_partial",
                      "Pygom.C17.par_order_direct_loss_counterexample", "Pygom.C17.parOrderBy_binds_by_name"]}
 BUDGET = {"quick": {"runs": 72, "direct": 10, "malformed": 8, "N": (30, 45), "Gmax": 3},
-          "thorough": {"runs": 1500, "direct": 120, "malformed": 60, "N": (30, 60), "Gmax": 4}}
+          "thorough": {"runs": 1000, "direct": 80, "malformed": 40, "N": (30, 60), "Gmax": 4}}
 RULE = ("real ABC runs on SIR_norm/SIR/SIS/SEIR with SquareLoss/NormalLoss/PoissonLoss, 1-3 inferred parameters (+ optionally an "
         "inferred initial state, a population constraint), uniform/gamma/normal priors, log-scale flags, Parameter list in "
         "random order; schedules: rejection, tolerance list, quantile, MNN (M<N-1 and M=N-1), followed by 0-2 "
